@@ -119,6 +119,13 @@ func genC05(g *Gen) *Plan {
 			if g.p(0.3) {
 				r.Header = append(r.Header, [2]string{"X-Multi", "a"}, [2]string{"X-Multi", "b"}, [2]string{"Vary", "Accept-Encoding"})
 			}
+			if g.p(0.12) {
+				// a field whose (first) value is empty is still a field
+				r.Header = append(r.Header, [2]string{"X-Empty", ""})
+				if g.p(0.5) {
+					r.Header = append(r.Header, [2]string{"X-Blank-First", ""}, [2]string{"X-Blank-First", "second"})
+				}
+			}
 			if g.p(0.2) {
 				r.ETag = fmt.Sprintf(`"v%d"`, g.n(1, 99))
 			}
